@@ -385,10 +385,12 @@ class CRDTStore(Entity):
                 local_crdt.merge(remote_crdt)
                 self._keys_merged += 1
             else:
-                # Create from remote state
+                # Create a local replica (own node id) and merge the remote state into it
                 remote_crdt = self._reconstruct_crdt(remote_dict)
                 if remote_crdt is not None:
-                    self._crdts[key] = remote_crdt
+                    local_crdt = type(remote_crdt)(self.name)
+                    local_crdt.merge(remote_crdt)
+                    self._crdts[key] = local_crdt
                     self._keys_merged += 1
 
     def _reconstruct_crdt(self, data: dict) -> CRDT | None:
